@@ -28,6 +28,7 @@ import (
 
 	"go/version"
 
+	"golang.org/x/telemetry/godev/internal/config"
 	"golang.org/x/telemetry/godev/internal/content"
 	"golang.org/x/telemetry/godev/internal/storage"
 	. "golang.org/x/telemetry/godev/internal/verifh/vhlib"
@@ -376,16 +377,63 @@ func (e *env) store(date string, objs []stored) []stored {
 		w.Close()
 		byName[o.name] = o
 	}
+	// what is stored for the day is what was written (the harness's own
+	// knowledge); the real listing only gives the ORDER.  A stored object the
+	// listing does not show is appended, so that the oracle sees it missing.
 	var res []stored
+	listed := map[string]bool{}
 	it := e.api.Upload.Objects(context.Background(), date)
 	for {
 		n, err := it.Next()
 		if err != nil {
 			break
 		}
+		if o, ok := byName[n]; ok && !listed[n] {
+			listed[n] = true
+			res = append(res, o)
+		}
+	}
+	var rest []string
+	for n := range byName {
+		if strings.HasPrefix(n, date) && !listed[n] {
+			rest = append(rest, n)
+		}
+	}
+	sort.Strings(rest)
+	for _, n := range rest {
+		vout.Note("stored-object-not-listed")
 		res = append(res, byName[n])
 	}
 	return res
+}
+
+// strayDirs puts directories that cannot be listed into a bucket: their names
+// are not valid UTF-8, which os.DirFS refuses to open (EACCES-like faults do
+// not work as root).  They hold no report.  Names sorting before and after
+// the dates, at top level and inside a readable directory.
+func strayDirs(e *env, bucket string) []string {
+	var made []string
+	n := 1 + vrnd.Intn(2)
+	for i := 0; i < n; i++ {
+		name := Pick(vrnd, []string{"!snap\xff", ".Trash\xfe", "0000/\xffx", "1\xc3(", "zz\xff", "2024\xff", "!a/b\xff/c"})
+		if err := os.MkdirAll(filepath.Join(e.dir, bucket, filepath.FromSlash(name)), 0777); err == nil {
+			made = append(made, name)
+		}
+	}
+	return made
+}
+
+// genStart: start dates around month ends, the leap day, and 31 December
+func genStart() time.Time {
+	switch vrnd.Intn(10) {
+	case 0, 1, 2:
+		y := Pick(vrnd, []int{2023, 2024, 1999, 2099, 2100, 2020})
+		return time.Date(y, 12, 25+vrnd.Intn(7), 0, 0, 0, 0, time.UTC) // a week from here crosses New Year
+	case 3:
+		return time.Date(Pick(vrnd, []int{2023, 2024}), 1, 1, 0, 0, 0, 0, time.UTC)
+	default:
+		return time.Date(2024, time.Month(1+vrnd.Intn(3)), 20+vrnd.Intn(12), 0, 0, 0, 0, time.UTC)
+	}
 }
 
 func decodeFirst(data []byte) *telemetry.Report {
@@ -444,6 +492,13 @@ func caseMerge() {
 	var xpool []float64
 	for i := 0; i < 3; i++ {
 		xpool = append(xpool, genX(nil))
+	}
+	if vrnd.Chance(30) {
+		date = genStart().Format(telemetry.DateOnly)
+	}
+	if vrnd.Chance(30) {
+		strayDirs(e, "upload")
+		vout.Note("merge-stray-unlistable-dir")
 	}
 	objs := genDay(nil, date, n, xpool, true)
 	if vrnd.Chance(8) && len(objs) > 0 {
@@ -690,10 +745,22 @@ func caseChart() {
 	malformed := vrnd.Chance(8) // a Go version goMajorMinor used to panic on (fixed by 48ba0d4)
 	cfg := genConfig(malformed)
 	ucfg := tconfig.NewConfig(cfg)
-	start := time.Date(2024, time.Month(1+vrnd.Intn(3)), 20+vrnd.Intn(12), 0, 0, 0, 0, time.UTC) // crosses month ends, leap day
+	start := genStart()
 	ndays := 1
 	if vrnd.Chance(70) {
 		ndays = 1 + vrnd.Intn(8)
+	}
+	long := vrnd.Chance(3) // a range of about a year or more: the reports of a few days, the other days merged empty
+	dataDay := map[int]bool{}
+	if long {
+		ndays = 300 + vrnd.Intn(500)
+		for i := 0; i < 4; i++ {
+			dataDay[vrnd.Intn(ndays)] = true
+		}
+		vout.Note("chart-range-over-300-days")
+	}
+	if start.Year() != start.AddDate(0, 0, ndays-1).Year() {
+		vout.Note("chart-range-crosses-new-year")
 	}
 	missing := -1
 	if vrnd.Chance(18) {
@@ -704,6 +771,13 @@ func caseChart() {
 		xpool = append(xpool, genX(nil))
 	}
 	maxPerDay := Pick(vrnd, []int{0, 2, 3, 5, 8, 12, 40})
+	if long {
+		maxPerDay = 3
+	}
+	if vrnd.Chance(20) {
+		strayDirs(e, "upload")
+		vout.Note("chart-stray-unlistable-dir")
+	}
 	bigBudget := 1
 	type dayT struct {
 		date    string
@@ -714,7 +788,9 @@ func caseChart() {
 	for i := 0; i < ndays; i++ {
 		d := start.AddDate(0, 0, i)
 		day := dayT{date: d.Format(telemetry.DateOnly), present: i != missing}
-		if day.present {
+		if day.present && long && !dataDay[i] {
+			writeMergedDirect(e, day.date, nil)
+		} else if day.present {
 			n := vrnd.Intn(maxPerDay + 1)
 			allowBig := bigBudget > 0 && vrnd.Chance(30)
 			objs := genDay(cfg, day.date, n, xpool, allowBig)
@@ -916,8 +992,12 @@ func caseSeq() {
 	defer e.close()
 	cfg := genConfig(vrnd.Chance(8))
 	ucfg := tconfig.NewConfig(cfg)
-	start := time.Date(2024, time.Month(1+vrnd.Intn(3)), 20+vrnd.Intn(12), 0, 0, 0, 0, time.UTC)
+	start := genStart()
 	ndays := 1 + vrnd.Intn(2)
+	if vrnd.Chance(15) {
+		start = time.Date(Pick(vrnd, []int{2023, 2024, 2099}), 12, 31, 0, 0, 0, 0, time.UTC)
+		ndays = 2
+	}
 	var dates []string
 	for i := 0; i < ndays; i++ {
 		dates = append(dates, start.AddDate(0, 0, i).Format(telemetry.DateOnly))
@@ -1013,7 +1093,21 @@ func caseSeq() {
 	}
 	rounds := 2 + vrnd.Intn(2)
 	shrunk := false
+	strayRound := -1
+	if vrnd.Chance(50) {
+		strayRound = vrnd.Intn(rounds)
+		vout.Note("seq-stray-unlistable-dir")
+	}
+	if start.Year() != end.Year() {
+		vout.Note("seq-range-crosses-new-year")
+	}
 	for round := 0; round < rounds; round++ {
+		if round == strayRound {
+			for _, n := range strayDirs(e, "upload") {
+				ops = append(ops, "stray", HS(n))
+				nops++
+			}
+		}
 		for _, date := range dates {
 			if round == 0 {
 				n := 1 + vrnd.Intn(6)
@@ -1163,6 +1257,106 @@ func caseSeq() {
 	vout.Case(true, fields...)
 }
 
+// copy: the real handleCopy from a source bucket ("prod-telemetry-uploaded",
+// an FS bucket under the same local storage) into the upload bucket, over a
+// generated range; observed: every object of the destination afterwards.
+func caseCopy() {
+	e := newEnv()
+	defer e.close()
+	ctx := context.Background()
+	src, err := storage.NewFSBucket(ctx, e.dir, "prod-telemetry-uploaded")
+	if err != nil {
+		panic(err)
+	}
+	wcfg := &config.Config{LocalStorage: e.dir, UploadBucket: "upload"}
+	start := genStart()
+	ndays := 1 + vrnd.Intn(9)
+	if vrnd.Chance(8) {
+		ndays = 300 + vrnd.Intn(500)
+	}
+	end := start.AddDate(0, 0, ndays-1)
+	write := func(b storage.BucketHandle, name string, data []byte) {
+		w, err := b.Object(name).NewWriter(ctx)
+		if err != nil {
+			panic(err)
+		}
+		w.Write(data)
+		w.Close()
+	}
+	fields := []string{"copy", I(dayNumber(start)), I(dayNumber(end))}
+	// source objects: in, just before and just after the range
+	srcObjs := map[string][]byte{}
+	nsrc := vrnd.Intn(12)
+	for i := 0; i < nsrc; i++ {
+		off := vrnd.Intn(ndays+4) - 2
+		if vrnd.Chance(40) {
+			off = Pick(vrnd, []int{0, ndays - 1, ndays / 2, -1, ndays})
+		}
+		date := start.AddDate(0, 0, off).Format(telemetry.DateOnly)
+		name := fmt.Sprintf("%s/%d.json", date, vrnd.Intn(5))
+		srcObjs[name] = vrnd.Bytes(1 + vrnd.Intn(40))
+	}
+	var names []string
+	for n := range srcObjs {
+		names = append(names, n)
+	}
+	sort.Strings(names)
+	fields = append(fields, I(int64(len(names))))
+	for _, n := range names {
+		write(src, n, srcObjs[n])
+		fields = append(fields, HS(n), H(srcObjs[n]))
+	}
+	if vrnd.Chance(30) {
+		strayDirs(e, "prod-telemetry-uploaded")
+		vout.Note("copy-stray-unlistable-dir")
+	}
+	// destination objects already there, some under a source name with longer content
+	var dnames []string
+	dstObjs := map[string][]byte{}
+	for i := vrnd.Intn(3); i > 0; i-- {
+		n := fmt.Sprintf("%s/d%d.json", start.Format(telemetry.DateOnly), i)
+		if len(names) > 0 && vrnd.Bool() {
+			n = Pick(vrnd, names)
+		}
+		if _, ok := dstObjs[n]; !ok {
+			dstObjs[n] = vrnd.Bytes(30 + vrnd.Intn(40))
+			dnames = append(dnames, n)
+		}
+	}
+	sort.Strings(dnames)
+	fields = append(fields, I(int64(len(dnames))))
+	for _, n := range dnames {
+		write(e.api.Upload, n, dstObjs[n])
+		fields = append(fields, HS(n), H(dstObjs[n]))
+	}
+	status, _ := serve(handleCopy(wcfg, e.api), "/copy/?start="+start.Format(telemetry.DateOnly)+"&end="+end.Format(telemetry.DateOnly))
+	// the destination afterwards, by the harness's own walk
+	after := map[string][]byte{}
+	root := filepath.Join(e.dir, "upload")
+	filepath.WalkDir(root, func(path string, d os.DirEntry, err error) error {
+		if err != nil || d.IsDir() {
+			return nil
+		}
+		rel, _ := filepath.Rel(root, path)
+		b, _ := os.ReadFile(path)
+		after[filepath.ToSlash(rel)] = b
+		return nil
+	})
+	var anames []string
+	for n := range after {
+		anames = append(anames, n)
+	}
+	sort.Strings(anames)
+	fields = append(fields, status, I(int64(len(anames))))
+	for _, n := range anames {
+		fields = append(fields, HS(n), H(after[n]))
+	}
+	if start.Year() != end.Year() {
+		vout.Note("copy-range-crosses-new-year")
+	}
+	vout.Case(true, fields...)
+}
+
 func vhMain() {
 	slog.SetDefault(slog.New(slog.NewTextHandler(io.Discard, nil)))
 	outPath := os.Args[1]
@@ -1188,6 +1382,7 @@ func vhMain() {
 			caseSeq()
 		case k == 16:
 			caseChartBadRange()
+			caseCopy()
 		case k == 17:
 			caseGMM()
 			caseGMM()
